@@ -1,8 +1,10 @@
 use std::collections::HashMap;
-use shared::rule::Rule;
+use shared::dictionary::Dictionary;
+use shared::rule::{FilterCondition, Rule};
 use shared::terms::{Term, TriplePattern};
 use shared::triple::Triple;
 use crate::reasoning::Reasoner;
+use crate::reasoning::rules::evaluate_filters;
 
 fn unify_patterns(
     pattern1: &TriplePattern,
@@ -137,12 +139,43 @@ fn rename_rule_variables(rule: &Rule, counter: &mut usize) -> Rule {
         new_conclusions.push((conclusion_s, conclusion_p, conclusion_o));
     }
 
+    // Filters name rule variables: rename them with the same mapping (a filter value that is
+    // not a variable of the rule, e.g. a numeric constant, is kept as it is).
+    let new_filters = rule
+        .filters
+        .iter()
+        .map(|f| FilterCondition {
+            variable: var_map.get(&f.variable).cloned().unwrap_or_else(|| f.variable.clone()),
+            operator: f.operator.clone(),
+            value: var_map.get(&f.value).cloned().unwrap_or_else(|| f.value.clone()),
+        })
+        .collect();
+
     Rule {
         premise: new_premise,
         negative_premise: vec![],
         conclusion: new_conclusions,
-        filters: rule.filters.clone(),
+        filters: new_filters,
     }
+}
+
+/// Do the filters of a (renamed) rule hold under `bindings`? Evaluated once all premises are
+/// solved, with the same semantics as forward chaining (`evaluate_filters`): the filter
+/// variables are looked up through the bindings and compared as dictionary ids / numbers.
+fn filters_hold(
+    filters: &[FilterCondition],
+    bindings: &HashMap<String, Term>,
+    dict: &Dictionary,
+) -> bool {
+    let mut ground: HashMap<String, u32> = HashMap::new();
+    for f in filters {
+        for name in [&f.variable, &f.value] {
+            if let Term::Constant(c) = resolve_term(&Term::Variable(name.clone()), bindings) {
+                ground.insert(name.clone(), c);
+            }
+        }
+    }
+    evaluate_filters(&ground, &filters.to_vec(), dict)
 }
 
 /// Rule variables are renamed to `v<counter>`. Returns the first counter value that cannot
@@ -223,6 +256,10 @@ impl Reasoner {
                             new_premise_results.extend(sub_res);
                         }
                         premise_results = new_premise_results;
+                    }
+                    if !renamed_rule.filters.is_empty() {
+                        let dict = self.dictionary.read().unwrap();
+                        premise_results.retain(|b| filters_hold(&renamed_rule.filters, b, &dict));
                     }
                     results.extend(premise_results);
                 }
